@@ -47,7 +47,7 @@ res['doc_with_patch'] = dict(rc=rcd, summary=summary(outd))
 rcx, outx = run(['cargo', 'test', '--offline', '--test', 'demo'])
 res['demo_with_patch'] = dict(rc=rcx, summary=summary(outx))
 ok = (res['demo_without_patch']['rc'] == 0 and res['patch_applies'] and rcl == 0 and '120 passed' in outl and rcd == 0 and rcx != 0
-      and 'test result: FAILED' in outx)
+      and ('test result: FAILED' in outx or 'signal:' in outx))  # a demo may also die of a signal (memory corruption in a data race)
 res['valid'] = ok
 print(json.dumps(res, indent=1))
 if ok:
